@@ -105,3 +105,22 @@ M.contract(F, "RunGeneratorResult.new_json_fragment_files", params=dict(self=Sel
                           inv=["chain(_rest1, (files, reload_prios), old_files, safe) == chain(self.json_fragment_results, ({}, {}), old_files, safe)"])},
            canaries=["len(result) == 0"], properties=["C13"], inputs=_njf_inputs,
            note="relative to jsontools.apply_json_fragment / format_json (opaque)")
+
+
+@M.spec
+def names_path(rs: JR, p: STR) -> BOOL:
+    """some generator of rs writes the file p"""
+    return False if not rs else (dhead(rs)[1].path == p or names_path(dtail(rs), p))
+
+
+# frame lemmas over the proved chain (C13: "changes only the parts selected" lifted to the file level): a generator of another
+# file leaves the entry planned for p as it is, and so does a whole chain none of whose generators names p
+M.lemma("step_frame", vars=dict(fp=FP, g=GJ, old_files=OldFiles, safe=BOOL, p=STR), hyps=["g.path != p"],
+        goal="dhas(step(fp, g, old_files, safe)[0], p) == dhas(fp[0], p) and (not dhas(fp[0], p) or step(fp, g, old_files, safe)[0][p] == fp[0][p])"
+             " and dhas(step(fp, g, old_files, safe)[1], p) == dhas(fp[1], p)"
+             " and (not dhas(fp[1], p) or step(fp, g, old_files, safe)[1][p] == fp[1][p])",
+        properties=["C13"])
+M.lemma("chain_frame", vars=dict(rs=JR, fp=FP, old_files=OldFiles, safe=BOOL, p=STR), hyps=["not names_path(rs, p)"],
+        goal="dhas(chain(rs, fp, old_files, safe)[0], p) == dhas(fp[0], p)"
+             " and (not dhas(fp[0], p) or chain(rs, fp, old_files, safe)[0][p] == fp[0][p])",
+        induct="rs", general=["fp"], use=["step_frame"], properties=["C13"])
